@@ -17,7 +17,7 @@ FUNCTIONS = ['frappy.protocol.dispatcher.Dispatcher.{handle_request,handle_activ
              'reset_connection,remove_connection,broadcast_event,announce_update} (2-3 threads)',
              'frappy.modulebase.Module.announceUpdate (update lock)', 'frappy.params.Parameter.__set__']
 ASSUMPTIONS = ['schedules: every interleaving of 2-3 threads at synchronisation points (acquire/release of the dispatcher lock, the module '
-               'update lock and the connection send lock) with at most 2 (quick) / 3 (thorough) pre-emptions; a pre-emption between two '
+               'update lock and the connection send lock) with at most 2 (quick) / 3 (thorough, two threads only) pre-emptions; a pre-emption between two '
                'byte codes that are not separated by a synchronisation point is outside the bound',
                'request thread: one request out of activate/deactivate x {global, m, m:_a}, *IDN?, disconnect on a connection that is '
                'inactive or active in a symbolic scope; driver threads: one or two assignments of distinct values to m.a / m.b']
@@ -40,7 +40,8 @@ def cases(tier):
                 for drivers in ('a', 'ab', 'aa', 'a+a'):
                     out.append({'fn': 'run_race', 'id': f'race/{req}-{scope}/pre-{pre}/drv-{drivers}',
                                 'params': {'req': req, 'scope': scope, 'pre': pre, 'drivers': drivers,
-                                           'preempt': 3 if tier == 'thorough' else 2}})
+                                           # (three threads with 3 pre-emptions: about an hour for the 29 scenarios; kept at 2)
+                                           'preempt': 3 if tier == 'thorough' and drivers != 'a+a' else 2}})
     return out
 
 
